@@ -159,9 +159,28 @@ def load_registry():
     return fams, allh
 
 
+def integration_state():
+    """Families accepted by the integrator, and properties still pending.
+    For a property that is claimed in MANIFEST.json (not pending) only harnesses
+    of integrated families are selected, so that a family still under
+    construction cannot make a registered check inconclusive."""
+    fams, pend = None, {}
+    f = os.path.join(VERIF, "lib", "integrated_families.txt")
+    if os.path.exists(f):
+        fams = set(x.strip() for x in open(f) if x.strip() and not x.startswith("#"))
+    pf = os.path.join(VERIF, "lib", "pending.json")
+    if os.path.exists(pf):
+        pend = json.load(open(pf))
+    return fams, pend
+
+
 def select(allh, prop, tier):
     out = []
+    integrated, pending = integration_state()
     for h in allh:
+        if integrated is not None and prop not in pending and h.family not in integrated \
+                and not os.environ.get("VERIF_ALL_FAMILIES"):
+            continue
         if prop not in h.props and prop not in h.panics:
             continue
         if tier == "quick":
@@ -169,6 +188,9 @@ def select(allh, prop, tier):
                 if prop not in h.quick:
                     continue
             elif h.tier != "quick":
+                continue
+            elif prop not in h.props:
+                # blamed for panics only (panics=): thorough tier for this property
                 continue
         out.append(h)
     return out
@@ -511,6 +533,8 @@ def run_playback_tests(fams, h, tests, logdir, label):
                 p.wait()
         text = open(logpath, errors="replace").read()
         out = {}
+        if "could not compile" in text or re.search(r"^error(\[E\d+\])?:", text, flags=re.M):
+            log("native playback build FAILED (see %s):\n%s" % (logpath, first_errors(text)))
         for t in tests:
             m = re.search(r"test \S*%s ... (\w+)" % re.escape(t["name"]), text)
             status = m.group(1) if m else "missing"
@@ -666,8 +690,9 @@ def write_evidence(prop, tier, seed, wall, results, statuses, violations, known_
         ] + (["stubs in force: " + ", ".join(stubs)] if stubs else []) + extra.get("assumptions", []),
     }
     ev["coverage"].update(extra.get("coverage", {}))
-    os.makedirs(os.path.join(VERIF, "evidence"), exist_ok=True)
-    with open(os.path.join(VERIF, "evidence", prop + ".json"), "w") as fh:
+    evdir = os.environ.get("VERIF_EVIDENCE_DIR", os.path.join(VERIF, "evidence"))
+    os.makedirs(evdir, exist_ok=True)
+    with open(os.path.join(evdir, prop + ".json"), "w") as fh:
         json.dump(ev, fh, indent=1)
 
 
@@ -731,7 +756,7 @@ def do_check(prop, tier, extra_engine=None):
                     inconclusive.append((n, "counterexample for %r did not reproduce natively (encoding/stub error?)" % c["desc"]))
                     continue
                 t = ok[0]
-                rdir = os.path.join(VERIF, "replays", prop)
+                rdir = os.path.join(os.environ.get("VERIF_REPLAY_DIR", os.path.join(VERIF, "replays")), prop)
                 os.makedirs(rdir, exist_ok=True)
                 rpath = os.path.join(rdir, "%s.%s.rs" % (h.name, hashlib.sha1(c["desc"].encode() + c["loc"].encode()).hexdigest()[:8]))
                 with open(rpath, "w") as fh:
